@@ -659,6 +659,10 @@ func (a Int) M__round__(digits Object) (Object, error) {
 		r -= digits
 		// Round half to even
 		if 2*digits > scale || (2*digits == scale && (r/scale)%2 == 1) {
+			if r > IntMax-scale {
+				// the result doesn't fit in an Int
+				return (*BigInt)(big.NewInt(int64(a))).M__round__(b)
+			}
 			r += scale
 		}
 		if negative {
